@@ -7,6 +7,8 @@ for P in "$@"; do (
     [ "$P-$V" = "C10-F" ] && ARGS="--features sort_keys"
     [ "$P-$V" = "C13-E" ] && ARGS="--features arbitrary_precision"
     [ "$P-$V" = "C12-F" ] && RF="-C target-cpu=x86-64"
+    [ "$P-$V" = "C17-E" ] && RF="-C target-cpu=x86-64"
+    [ "$P-$V" = "C01-E" ] && ARGS="--features sort_keys"
     DEMO_ARGS="$ARGS" DEMO_RUSTFLAGS="$RF" /verif/tools/confirm_seed.sh /tmp/seed/out3-$P/$V /tmp/seed/r3-$P $P-$V 2>&1 | grep -E "CONFIRMED|REJECT|does not apply"
   fi
  done ) &
